@@ -27,11 +27,18 @@ LEVEL_TEXT = (
     "(source literals, SciPy's signature defaults for the others) are regenerated as a constant and proved to select the "
     "exact Euclidean non-periodic search (gen_tree_args_exact). Round 4: the table of every Grid subclass of the package with the "
     "class whose get_localgrid / __getitem__ / points / weights it executes is regenerated (gridDispatch) and proved to be the "
-    "dispatch the model assumes (gen_dispatch_pinned): a new override of get_localgrid in any subclass breaks the obligation."
+    "dispatch the model assumes (gen_dispatch_pinned): a new override of get_localgrid in any subclass breaks the obligation. "
+    "Round 6: the array effects of the two setters are regenerated (Grid_points_set_eff, Grid_weights_set_eff) and proved to be "
+    "rebinds only over a reference/heap model (Model/LocalGridEff.lean): after a reassignment every array of the process — the "
+    "old one still held by an infinite-radius local grid or the caller, the assigned one — keeps its contents (gen_setter_frame, "
+    "gen_shared_weights_kept); the closed ball is stated over the generated get_localgrid (gen_boundary_point_included, "
+    "gen_closed_ball_3_4_5, gen_closed_ball_radius_zero); the translator carries in-place setter assignments and direct scans "
+    "(np.flatnonzero(dists < r)) so that such rewrites make these statements false instead of stopping the translator."
 )
 TECHNIQUE = "Lean 4 proof (state-machine invariant over all op histories) + differential op histories + brute-force oracle"
 GEN = ["localgrid", "localgrid_ctor"]
-LEAN_MODULES = ["GridVerif.Props.C10", "GridVerif.Props.C10.Gen", "GridVerif.Props.C10.Ctor"]
+LEAN_MODULES = ["GridVerif.Props.C10", "GridVerif.Props.C10.Gen", "GridVerif.Props.C10.Ctor", "GridVerif.Props.C10.Effects",
+                "GridVerif.Props.C10.Boundary"]
 THEOREMS = [
     "GridVerif.C10.inv_init",
     "GridVerif.C10.inv_step",
@@ -74,6 +81,15 @@ THEOREMS = [
     "GridVerif.C10.gen_tree_args_exact",
     # round 4: which class's get_localgrid / __getitem__ / points / weights every grid class executes
     "GridVerif.C10.gen_dispatch_pinned",
+    # round 6: the setters rebind and never write through (effects over the generated setters); the ball is closed
+    "GridVerif.C10.gen_setters_never_write_through",
+    "GridVerif.C10.gen_setter_frame",
+    "GridVerif.C10.gen_setter_rebinds",
+    "GridVerif.C10.gen_shared_weights_kept",
+    "GridVerif.C10.write_through_would_overwrite",
+    "GridVerif.C10.gen_boundary_point_included",
+    "GridVerif.C10.gen_closed_ball_3_4_5",
+    "GridVerif.C10.gen_closed_ball_radius_zero",
 ]
 RULE = (
     "one evaluation = one operation (get_localgrid / points= / weights= / __getitem__) of a random history run on the "
